@@ -49,6 +49,13 @@ def check_case(spec):
     res = Result()
     mesh, info = meshgen.make_mesh(spec["mesh"])
     if mesh is None:
+        ms = spec["mesh"]
+        if ms["src"] == "grid" and ms.get("jitter") == 0 and "refused" in str(info):
+            # an exactly structured grid (right triangles, or its Delaunay triangulation) is a valid Delaunay triangulation
+            # whose cells are convex: refusing it is not a documented refusal
+            res.fail("C03.structured_grid_refused", f"Mesh.from_triangulation refused a structured {ms['nx']}x{ms['ny']} grid ({ms['diag']} diagonals): {info}")
+            res.nontrivial = True
+            return res
         res.label(f"discarded: {info}")
         return res
     em = mesh.edge_mesh
